@@ -10,7 +10,7 @@ them. Nothing is ever applied to /repo itself.
 import json, os, subprocess, sys, shutil, time
 
 VERIF = os.path.dirname(os.path.dirname(os.path.abspath(__file__)))
-WT = "/tmp/verif-mutwt"
+WT = os.environ.get("MUT_WT", "/tmp/verif-mutwt")
 BUDGET = os.environ.get("MUT_BUDGET", "25")
 
 # name -> (properties expected to catch it, [(file, old, new), ...])
@@ -574,7 +574,7 @@ def remove_worktree():
 def run_checks(props):
     res = {}
     for p in props:
-        env = dict(os.environ, VERIF_REPO=WT, VERIF_EVIDENCE_DIR="/tmp/verif-mut-evidence", VERIF_REPLAYS_DIR="/tmp/verif-mut-replays")
+        env = dict(os.environ, VERIF_REPO=WT, VERIF_EVIDENCE_DIR=os.environ.get("MUT_EVIDENCE", "/tmp/verif-mut-evidence"), VERIF_REPLAYS_DIR=os.environ.get("MUT_REPLAYS", "/tmp/verif-mut-replays"))
         t0 = time.time()
         r = sh([os.path.join(VERIF, "check"), p, "--budget", BUDGET], env=env, stdout=subprocess.PIPE, stderr=subprocess.STDOUT, text=True)
         open("/tmp/verif-mut-last-%s.log" % p, "w").write(r.stdout)
